@@ -170,6 +170,7 @@ func checkRecogniserTotality(r *Run, tp, op, cp, fe *packages.Package, cg *CallG
 			}
 		}
 		binds := map[*types.Var]*recBinding{}
+		elemVars := map[*types.Var]*types.Var{} // list field -> the binding that stands for its elements
 		get := func(v *types.Var, fn *types.Func) *recBinding {
 			if b := binds[v]; b != nil {
 				return b
@@ -184,6 +185,19 @@ func checkRecogniserTotality(r *Run, tp, op, cp, fe *packages.Package, cg *CallG
 			p := cg.PkgOf[fn]
 			info := p.TypesInfo
 			varOf := func(e ast.Expr) *types.Var {
+				// an element of a list field taken by index (`order.Items[0]`) stands for "the elements of that field": one
+				// binding per field, shared by every function of the closure
+				if ix, isIx := ast.Unparen(e).(*ast.IndexExpr); isIx {
+					if sel, isSel := ast.Unparen(ix.X).(*ast.SelectorExpr); isSel {
+						if fv, isField := info.Uses[sel.Sel].(*types.Var); isField && fv.IsField() && isModelPtr(info.TypeOf(e)) != nil {
+							if elemVars[fv] == nil {
+								elemVars[fv] = types.NewVar(fv.Pos(), fv.Pkg(), fv.Name()+"[]", info.TypeOf(e))
+							}
+							return elemVars[fv]
+						}
+					}
+					return nil
+				}
 				id, ok := ast.Unparen(e).(*ast.Ident)
 				if !ok {
 					return nil
@@ -313,6 +327,15 @@ func checkRecogniserTotality(r *Run, tp, op, cp, fe *packages.Package, cg *CallG
 							if v := varOf(k); v != nil {
 								get(v, fn)
 								mark(k)
+							}
+						}
+					}
+					// the element variable of a range over a list field is the same binding as an indexed element
+					if sel, isSel := ast.Unparen(x.X).(*ast.SelectorExpr); isSel && x.Value != nil {
+						if fv, isField := info.Uses[sel.Sel].(*types.Var); isField && fv.IsField() && elemVars[fv] != nil {
+							if v := varOf(x.Value); v != nil {
+								get(elemVars[fv], fn)
+								union(v, elemVars[fv])
 							}
 						}
 					}
